@@ -448,26 +448,58 @@ type specBound struct {
 	T     int64
 	count int
 	src   string
+	alts  []string // equivalent normalised facts that also discharge the obligation (e.g. an iteration bound)
 }
 
 var specBounds = []specBound{
-	{"parseATXHeading", ">=", 7, 1, "ATX heading: opening sequence of 1–6 '#' (reject from 7)"},
-	{"parseListMarker", "<=", 9, 1, "ordered list marker: 1–9 digits (positions 1..9 scanned)"},
-	{"parseLinkLabel", ">=", 999, 1, "link label: at most 999 characters (stop at 999)"},
-	{"parseLinkLabel", "<=", 998, 1, "link label: at most 999 characters (continue up to 998)"},
-	{"parseAutolink", "<=", 2, 1, "autolink scheme: at least 2 characters"},
-	{"parseAutolink", ">=", 34, 1, "autolink scheme: at most 32 characters"},
-	{"parseDomainLabel", "<=", 62, 1, "e-mail domain label: at most 63 characters"},
-	{"parseCharacterEscape", ">=", 8, 1, "hexadecimal character reference: 1–6 digits"},
-	{"parseCharacterEscape", ">=", 9, 1, "decimal character reference: 1–7 digits"},
-	{"parseCodeFence", "<=", 2, 2, "code fence: at least three fence characters (line length and run length)"},
-	{"parseThematicBreak", "<=", 2, 1, "thematic break: at least three characters"},
-	{"parseHardLineBreakSpace", "<=", 1, 2, "hard line break: at least two spaces"},
+	{"parseATXHeading", ">=", 7, 1, "ATX heading: opening sequence of 1–6 '#' (reject from 7)", nil},
+	{"parseListMarker", "iter<=", 9, 1, "ordered list marker: 1–9 digits (a counting loop takes at most 9 values)", nil},
+	{"parseLinkLabel", ">=", 999, 1, "link label: at most 999 characters (stop at 999)", nil},
+	{"parseLinkLabel", "<=", 998, 1, "link label: at most 999 characters (continue up to 998)", nil},
+	{"parseAutolink", "<=", 2, 1, "autolink scheme: at least 2 characters", nil},
+	{"parseAutolink", ">=", 34, 1, "autolink scheme: at most 32 characters", nil},
+	{"parseDomainLabel", "<=", 62, 1, "e-mail domain label: at most 63 characters", nil},
+	{"parseCharacterEscape", ">=", 8, 1, "hexadecimal character reference: 1–6 digits", nil},
+	{"parseCharacterEscape", ">=", 9, 1, "decimal character reference: 1–7 digits", nil},
+	{"parseCodeFence", "<=", 2, 2, "code fence: at least three fence characters (line length and run length)", nil},
+	{"parseThematicBreak", "<=", 2, 1, "thematic break: at least three characters", nil},
+	{"parseHardLineBreakSpace", "<=", 1, 2, "hard line break: at least two spaces", nil},
 }
 
 // thresholdsOf normalises every comparison of a non-constant integer with a constant in fn to (dir, T).
+// A comparison whose variable is a unit-stride loop counter (a header phi with a constant start a and a back edge
+// counter+1) is additionally recorded by the number of values the counter can take while the comparison holds:
+// `i < c` with start a gives "iter<=c-a" — so `for i := 1; i < 10` and `for n := 0; n < 9` both read "iter<=9".
 func thresholdsOf(fn *ssa.Function) map[string]int {
 	out := map[string]int{}
+	counterStart := func(v ssa.Value) (int64, bool) {
+		ph, ok := v.(*ssa.Phi)
+		if !ok {
+			return 0, false
+		}
+		var start int64
+		haveStart, haveStep := false, false
+		for _, e := range ph.Edges {
+			if k, ok := constInt(e); ok {
+				if haveStart && k != start {
+					return 0, false
+				}
+				start, haveStart = k, true
+				continue
+			}
+			if bo, ok := e.(*ssa.BinOp); ok && bo.Op == token.ADD && bo.X == ssa.Value(ph) {
+				if one, ok := constInt(bo.Y); ok && one == 1 {
+					haveStep = true
+					continue
+				}
+			}
+			if e == ssa.Value(ph) {
+				continue
+			}
+			return 0, false
+		}
+		return start, haveStart && haveStep
+	}
 	eachInstr(fn, func(in ssa.Instruction) {
 		bo, ok := in.(*ssa.BinOp)
 		if !ok {
@@ -475,18 +507,20 @@ func thresholdsOf(fn *ssa.Function) map[string]int {
 		}
 		var k int64
 		var op token.Token
+		var variable ssa.Value
 		if c, ok := constInt(bo.Y); ok {
 			if _, isC := constInt(bo.X); isC {
 				return
 			}
-			k, op = c, bo.Op
+			k, op, variable = c, bo.Op, bo.X
 		} else if c, ok := constInt(bo.X); ok {
 			k = c
 			op = map[token.Token]token.Token{token.LSS: token.GTR, token.LEQ: token.GEQ, token.GTR: token.LSS, token.GEQ: token.LEQ}[bo.Op]
+			variable = bo.Y
 		} else {
 			return
 		}
-		if b, ok := bo.X.Type().Underlying().(*types.Basic); !ok || b.Info()&types.IsInteger == 0 || b.Kind() == types.Uint8 {
+		if b, ok := variable.Type().Underlying().(*types.Basic); !ok || b.Info()&types.IsInteger == 0 || b.Kind() == types.Uint8 {
 			return
 		}
 		switch op {
@@ -498,6 +532,18 @@ func thresholdsOf(fn *ssa.Function) map[string]int {
 			out[fmt.Sprintf(">=%d", k+1)]++
 		case token.GEQ:
 			out[fmt.Sprintf(">=%d", k)]++
+		}
+		if a, ok := counterStart(variable); ok {
+			switch op {
+			case token.LSS:
+				out[fmt.Sprintf("iter<=%d", k-a)]++
+			case token.LEQ:
+				out[fmt.Sprintf("iter<=%d", k-a+1)]++
+			case token.GEQ: // leaving the loop when counter >= k
+				out[fmt.Sprintf("iter<=%d", k-a)]++
+			case token.GTR:
+				out[fmt.Sprintf("iter<=%d", k-a+1)]++
+			}
 		}
 	})
 	return out
@@ -514,6 +560,9 @@ func ruleSpecBounds(c *Ctx) {
 		}
 		th := thresholdsOf(fn)
 		got := th[fmt.Sprintf("%s%d", sb.dir, sb.T)]
+		for _, a := range sb.alts {
+			got += th[a]
+		}
 		var all []string
 		for k, n := range th {
 			all = append(all, fmt.Sprintf("%s×%d", k, n))
